@@ -163,6 +163,10 @@ def construct(eng, cls, node, st):
     if init is None:
         raise Unsupported("constructor of %s not modelled" % cls)
     args = [eng.eval(a, st) for a in node.args]
+    defaults = eng.reg.ctor_defaults.get(cls, {})
+    for fld in init[len(args):]:
+        if fld in defaults:
+            args.append(defaults[fld])
     if len(args) != len(init):
         raise Unsupported("constructor arity of %s" % cls)
     obj = eng.allocate(st, cls)
@@ -445,7 +449,14 @@ def b_print(eng, node, st):
 
 
 def b_isinstance(eng, node, st):
-    raise Unsupported("isinstance")
+    v = eng.eval(node.args[0], st)
+    cls = node.args[1]
+    name = cls.id if isinstance(cls, ast.Name) else None
+    if name == "str" and isinstance(v, VList):
+        return z3.BoolVal(bool(v.is_str))
+    if name == "int" and isinstance(v, z3.ExprRef) and v.sort() == z3.IntSort():
+        return z3.BoolVal(True)
+    raise Unsupported("isinstance(%r, %s)" % (v, ast.unparse(cls)))
 
 
 BUILTINS = {
@@ -549,6 +560,8 @@ def str_join(eng, sep, arg, st):
         n, i, c, e = eng.gen_lambda(arg, st)
         if not z3.is_true(z3.simplify(c)):
             raise Unsupported("filtered join")
+        if is_numlike(e) and not isinstance(e, VList):
+            raise Unsupported("join of non-strings")
         if not (isinstance(e, VList) and e.is_str):
             raise Unsupported("join of non-strings")
         el = z3.simplify(e.len)
